@@ -19,7 +19,8 @@ def run(tier):
     c10.QUERIES = queries
     slices = [100, 1] if tier == "quick" else [100, 1, 2]
     coverage, fails, wall = c10.run_common(PID, CFG, tier, True, queries, slices,
-                                           ["SigDomain", "CheckedDomain", "FormatSafe", "SigBuiltFor"])
+                                           ["SigDomain", "CheckedDomain", "FormatSafe", "SigBuiltFor"],
+                                           n_thorough=1200)    # dense queries x 3 GC slice sizes: about 40 min
     coverage["rule"] = "requests: hover, definition, references, signature help, completion, code actions, rename at sampled/all columns of every line (+ beyond end of line, beyond end of file, 0:0, u32::MAX); format, folding ranges, diagnostics rendering per module"
     write_evidence(PID, tier, "model_checking", coverage,
                    c10.ASSUMPTIONS + ["requests are issued at samlang_services' API, the layer the LSP glue calls one-to-one",
